@@ -150,7 +150,7 @@ pub fn ends_lattice(kind: u8, custom: &[f64], positive: bool) -> Vec<f64> {
             _ => custom.iter().map(|x| x.abs().clamp(0.05, 20.0)).collect(),
         }
     } else {
-        match kind % 9 {
+        match kind % 10 {
             0 => vec![-2.0, -1.0, -0.0, 0.0, 5e-324, 1.0, one_up, 2.0, 3.0, 1e300],
             1 => vec![f64::NEG_INFINITY, -f64::MAX, -1.0, 0.0, 1.0, next_up(1.0), f64::MAX, f64::INFINITY],
             2 => vec![1.0, 2.0, 3.0, 4.0, 5.0, 6.0, 7.0, 8.0],
@@ -165,6 +165,7 @@ pub fn ends_lattice(kind: u8, custom: &[f64], positive: bool) -> Vec<f64> {
                 let w = ws[(custom.first().map_or(0, |c| c.to_bits() >> 7) % ws.len() as u64) as usize];
                 (0..=64).map(|k| k as f64 * w).collect()
             }
+            8 => vec![-f64::MAX, -1.5e308, -1.25e308, -1e308, -9e307, 9e307, 1e308, 1.25e308, 1.5e308, f64::MAX],
             _ => custom.to_vec(),
         }
     };
@@ -181,7 +182,7 @@ pub fn ends_lattice(kind: u8, custom: &[f64], positive: bool) -> Vec<f64> {
 /// segments and ends one ulp apart are common.
 pub fn ends(max_len: usize, positive: bool) -> BoxedStrategy<Vec<f64>> {
     let custom_elem = if positive { scaled_pos(-4, 4).boxed() } else { any_non_nan() };
-    (0u8..18, vec(custom_elem, 1..8), vec(any::<u16>(), 1..=max_len), 0u8..8, any::<u16>())
+    (0u8..20, vec(custom_elem, 1..8), vec(any::<u16>(), 1..=max_len), 0u8..8, any::<u16>())
         .prop_map(move |(kind, custom, picks, mode, start)| {
             let l = ends_lattice(kind, &custom, positive);
             let mut e: Vec<f64> = if mode == 0 {
